@@ -52,6 +52,24 @@ func mkMods6(n *Sx) []dhcpv6.Modifier {
 			mods = append(mods, dhcpv6.WithClientLinkLayerAddress(iana.HWType(a.Args[0].nat()), a.Args[1].bytes()))
 		case a.Name == "4o6":
 			mods = append(mods, dhcpv6.WithDHCP4oDHCP6Server(mkIPs(a.Args[0])...))
+		case a.Name == "fqdn":
+			mods = append(mods, dhcpv6.WithFQDN(uint8(a.Args[0].nat()), string(a.Args[1].bytes())))
+		case a.Name == "dsl":
+			var names []string
+			for _, x := range a.Args[0].Args {
+				names = append(names, string(x.bytes()))
+			}
+			mods = append(mods, dhcpv6.WithDomainSearchList(names...))
+		case a.Name == "ianaaddrs":
+			mods = append(mods, dhcpv6.WithIANA(dpnIAAddrs(a.Args[0])...))
+		case a.Name == "iata":
+			mods = append(mods, dhcpv6.WithIATA(iaid(a.Args[0]), dpnIAAddrs(a.Args[1])...))
+		case a.Name == "iapd":
+			var ps []*dhcpv6.OptIAPrefix
+			for _, x := range a.Args[1].Args {
+				ps = append(ps, mkOpt6(x).(*dhcpv6.OptIAPrefix))
+			}
+			mods = append(mods, dhcpv6.WithIAPD(iaid(a.Args[0]), ps...))
 		default:
 			panic("harness: bad modifier term")
 		}
@@ -59,11 +77,44 @@ func mkMods6(n *Sx) []dhcpv6.Modifier {
 	return mods
 }
 
+// dpnIAAddrs: the OptIAAddress VALUES WithIANA / WithIATA take.
+func dpnIAAddrs(n *Sx) []dhcpv6.OptIAAddress {
+	var out []dhcpv6.OptIAAddress
+	for _, x := range n.Args {
+		out = append(out, *mkOpt6(x).(*dhcpv6.OptIAAddress))
+	}
+	return out
+}
+
+// dpnGenSubList: 0..3 options of the given code as a term list.
+func dpnGenSubList(r *Rng, code int) string {
+	var items []string
+	for j := r.Pick([]int{0, 1, 1, 2, 3}); j > 0; j-- {
+		items = append(items, sxOpt6(genOpt6(r, code, r.Intn(2), false)))
+	}
+	return lst(items)
+}
+
+func dpnGenNames(r *Rng, lo, hi int) []string {
+	var names []string
+	for j := r.Range(lo, hi); j > 0; j-- {
+		name := genLabelName(r)
+		switch r.Intn(12) {
+		case 0:
+			name = "" // the root name
+		case 1:
+			name += "." // trailing dot
+		}
+		names = append(names, hx([]byte(name)))
+	}
+	return names
+}
+
 func genMods6(r *Rng) string {
 	n := r.Range(1, 3)
 	items := make([]string, 0, n)
 	for i := 0; i < n; i++ {
-		switch r.Intn(13) {
+		switch r.Intn(18) {
 		case 0:
 			switch code := r.Pick([]int{1, 2, 3, 8, 13, 14, 16, 23, 25, 32, 300}); code {
 			case 1:
@@ -99,6 +150,16 @@ func genMods6(r *Rng) string {
 			items = append(items, app("irt", num(int64(genSeconds(r)))))
 		case 11:
 			items = append(items, app("lla", num(r.Intn(65536)), hx(r.Bytes(r.Pick([]int{0, 6, 8})))))
+		case 12:
+			items = append(items, app("fqdn", num(r.Pick([]int{0, 1, 4, 255})), dpnGenNames(r, 1, 1)[0]))
+		case 13:
+			items = append(items, app("dsl", lst(dpnGenNames(r, 0, 3))))
+		case 14:
+			items = append(items, app("ianaaddrs", dpnGenSubList(r, 5)))
+		case 15:
+			items = append(items, app("iata", hx(r.Bytes(4)), dpnGenSubList(r, 5)))
+		case 16:
+			items = append(items, app("iapd", hx(r.Bytes(4)), dpnGenSubList(r, 26)))
 		default:
 			items = append(items, app("4o6", ipList(genIPs(r, r.Range(0, 2)))))
 		}
@@ -430,6 +491,23 @@ func genV6Build(r *Rng, thorough bool) (string, []string) {
 		default:
 			return "v6mac " + term + strings.Replace(wire, " owire=1", "", 1), append(tags, "op:mac")
 		}
+	case k < 14:
+		// the option-list operations (UpdateOption / AddOption / Options.Del) and the
+		// modifiers applied directly to a *Message or a *RelayMessage
+		target, ttags := dpnGenTarget(r)
+		tags = append(tags, ttags...)
+		addWire()
+		term := sxMsg6(target)
+		switch r.Intn(8) {
+		case 0, 1, 2, 3:
+			return "v6mods " + term + " mods=" + genMods6(r) + wire, append(tags, "op:mods")
+		case 4:
+			return "v6update " + term + " " + dpnGenOptFor(r, target) + wire, append(tags, "op:update")
+		case 5:
+			return "v6add " + term + " " + dpnGenOptFor(r, target) + wire, append(tags, "op:add")
+		default:
+			return fmt.Sprintf("v6del %s %d%s", term, dpnGenCodeFor(r, target), wire), append(tags, "op:del")
+		}
 	default:
 		// message builders
 		op := r.PickStr([]string{"v6adv", "v6req", "v6reply"})
@@ -459,6 +537,85 @@ func genV6Build(r *Rng, thorough bool) (string, []string) {
 		}
 		return line + wire, tags
 	}
+}
+
+// dpnTopOpts: the top-level option list of either message kind.
+func dpnTopOpts(m dhcpv6.DHCPv6) dhcpv6.Options {
+	switch v := m.(type) {
+	case *dhcpv6.Message:
+		return v.Options.Options
+	case *dhcpv6.RelayMessage:
+		return v.Options.Options
+	}
+	return nil
+}
+
+// dpnGenTarget: a message (two thirds) or a short relay chain (one third) with
+// more of what the identity-association and name modifiers look at: 0..2 IA_TA,
+// sometimes an FQDN / domain search list already present (fresh or decoded
+// label sets), sometimes an OptionGeneric carrying code 3 / 4 / 25.
+func dpnGenTarget(r *Rng) (dhcpv6.DHCPv6, []string) {
+	s := genInnerSpec(r, r.Pick(msgTypes6))
+	s.illTyped = r.Chance(1, 25)
+	m := genInner6(r, s)
+	tags := []string{s.tag()}
+	ins := func(o dhcpv6.Option) {
+		os := m.Options.Options
+		i := r.Intn(len(os) + 1)
+		os = append(os, nil)
+		copy(os[i+1:], os[i:])
+		os[i] = o
+		m.Options.Options = os
+	}
+	nTA := r.Pick([]int{0, 0, 1, 1, 2})
+	for j := 0; j < nTA; j++ {
+		ins(genOpt6(r, 4, 1, false))
+	}
+	tags = append(tags, fmt.Sprintf("ta%d", nTA))
+	if r.Chance(1, 3) {
+		for j := r.Range(1, 2); j > 0; j-- {
+			ins(genOpt6(r, r.Pick([]int{24, 39}), 0, false))
+		}
+		tags = append(tags, "names-present")
+	}
+	if r.Chance(1, 25) {
+		ins(&dhcpv6.OptionGeneric{OptionCode: dhcpv6.OptionCode(r.Pick([]int{3, 4, 4, 25})), OptionData: r.Bytes(r.Range(0, 6))})
+		tags = append(tags, "ill-typed-option")
+	}
+	if r.Chance(1, 3) {
+		d := r.Range(1, 3)
+		return genChain6(r, m, chainSpec{depth: d}), append(tags, "target:relay", depthTag(d))
+	}
+	return m, append(tags, "target:message")
+}
+
+// dpnGenCodeFor: an option code, two thirds of the time one the target carries
+// at top level.
+func dpnGenCodeFor(r *Rng, m dhcpv6.DHCPv6) int {
+	os := dpnTopOpts(m)
+	if len(os) > 0 && r.Chance(2, 3) {
+		return int(os[r.Intn(len(os))].Code())
+	}
+	return r.Pick([]int{1, 2, 3, 4, 9, 14, 18, 25, 37, 300, 0, 65535})
+}
+
+// dpnGenOptFor: an option (as a term) whose code the target carries or not.
+func dpnGenOptFor(r *Rng, m dhcpv6.DHCPv6) string {
+	code := dpnGenCodeFor(r, m)
+	switch code {
+	case 1:
+		return sxOpt6(dhcpv6.OptClientID(genDUIDWire(r)))
+	case 2:
+		return sxOpt6(dhcpv6.OptServerID(genDUIDWire(r)))
+	case 9:
+		inner := genInner6(r, genInnerSpec(r, r.Pick(msgTypes6)))
+		return sxOpt6(dhcpv6.OptRelayMessage(inner))
+	case 14:
+		return sxOpt6(rapidCommit6())
+	case 0, 65535:
+		return sxOpt6(&dhcpv6.OptionGeneric{OptionCode: dhcpv6.OptionCode(code), OptionData: r.Bytes(r.Range(0, 5))})
+	}
+	return sxOpt6(genOpt6(r, code, 1, false))
 }
 
 // ---- running the real code ----
@@ -561,6 +718,25 @@ func execV6Build(op string, args []string) string {
 		// checks freshness on the real values)
 		copy(req.TransactionID[:], unhx(xid))
 		return out(req, nil)
+	case "v6mods":
+		for _, mod := range mods {
+			mod(in)
+		}
+		return out(in, nil)
+	case "v6update":
+		in.UpdateOption(mkOpt6(parseSx(pos[1])))
+		return out(in, nil)
+	case "v6add":
+		in.AddOption(mkOpt6(parseSx(pos[1])))
+		return out(in, nil)
+	case "v6del":
+		switch v := in.(type) {
+		case *dhcpv6.Message:
+			v.Options.Del(dhcpv6.OptionCode(atoi(pos[1])))
+		case *dhcpv6.RelayMessage:
+			v.Options.Del(dhcpv6.OptionCode(atoi(pos[1])))
+		}
+		return out(in, nil)
 	case "v6mac":
 		mac, err := dhcpv6.ExtractMAC(in)
 		if err != nil {
